@@ -11,8 +11,9 @@ identically, the strict decoder accepts sorted and rejects unsorted encodings, n
 Only statements and their final proofs live here; lemmas are in Verif.Proofs.Codec.Sort.
 -/
 import Verif.Proofs.Codec.Sort
+import Verif.Proofs.Codec.Canonical
 namespace Verif.Properties.C42
-open Verif.Model.Codec Verif.Model.Codec.Ccf Verif.Proofs.Codec.Sort
+open Verif.Model.Codec Verif.Model.Codec.Ccf Verif.Proofs.Codec.Sort Verif.Proofs.Codec.Canonical
 
 /-- FX obligation: the CBOR tag numbers of the running code (`ccf.CBORTag`, by stringer name) are the
 pinned ones the model uses. -/
@@ -52,13 +53,35 @@ theorem canonical_entitlements (m : Mode) (hm : m.sortEntitlements = true) (isTy
 example : authItem Mode.deterministic true (.conj ["S.test.X", "S.a.X"]) = authItem Mode.deterministic true (.conj ["S.a.X", "S.test.X"]) :=
   (canonical_entitlements _ rfl _ (by decide)).1
 
+/-- Canonical form, dictionaries (full strength, every mode): two dictionary values of the same type
+whose entries are permutations of each other, with pairwise different encoded keys, have the same
+encoding (if one of them can be encoded, so can the other, to the same item). -/
+theorem canonical_dictionary (m : Mode) (tids : List Collected) (t : CType) (kvs₁ kvs₂ : Pairs)
+    (h : kvs₁.toList.Perm kvs₂.toList) (x : Cbor)
+    (h1 : valueBody m tids (.dict t kvs₁) = .ok x)
+    (distinct : ∀ ps, pairs m tids kvs₁ (dictKeyType t) (dictValType t) = .ok ps →
+      ∀ a b, a ∈ ps → b ∈ ps → Cbor.encode a.1 = Cbor.encode b.1 → a = b) :
+    valueBody m tids (.dict t kvs₂) = .ok x :=
+  dict_canonical m tids t kvs₁ kvs₂ h x h1 distinct
+
+/-- Canonical form, intersection types (full strength for inline types): in a mode that sorts
+intersection types, two intersection types whose members are permutations of each other, with pairwise
+different type IDs, have the same encoding. -/
+theorem canonical_intersection (m : Mode) (hm : m.sortIntersections = true) (tids : List Collected)
+    (ts₁ ts₂ : Types) (h : ts₁.toList.Perm ts₂.toList) (x : Cbor)
+    (h1 : inlineType m tids (.inter ts₁) = .ok x) (distinct : (Types.ids ts₁).Nodup) :
+    inlineType m tids (.inter ts₂) = .ok x :=
+  inter_canonical m hm tids ts₁ ts₂ h x h1 distinct
+
 /-
 Full statement (DESIGN §6 C42 `canonical`): `encode Mode.deterministic v = encode Mode.deterministic v'`
 whenever `v'` is `v` with dictionary entries, intersection members and entitlement sets permuted.
-Proved: entitlement sets (above) and, for dictionaries, intersections and composite fields, the step
-after the members are encoded (below): what is missing is the congruence of the recursive encoder
-under permutation of the *inputs* of these steps (the element encoders run in the `Except` monad over
-the mutual value / type algebra).  The stream op `perm` checks the full statement on the Go code.
+Proved per construct: entitlement sets, dictionary values, inline intersection types (above).  Missing:
+the closure under contexts (a permuted member nested inside a larger value: congruence of the recursive
+encoder, and the collection / numbering of type definitions is by sorted type ID and so order
+independent), intersection types inside type values (the encoder threads its `visited` table through
+the sorted members), and composite fields in deterministic mode.  The stream op `perm` checks the full
+statement on the Go code against the model.
 -/
 
 /-- Canonical form, dictionaries: the encoder sorts the encoded key-value pairs by the bytes of the
